@@ -42,6 +42,21 @@ def main():
         "psi2": lambda: (mp.psi(2, "ket"), None),
         "norm2": lambda: (mp.norm_factor(2), None),
     }
+    def density_expr(order, blocks="ij"):
+        # <d> through the n-th order density tensor: p{n}^i_j d^i_j
+        from adcgen.sympy_objects import AntiSymmetricTensor
+        u, l = get_symbols(blocks)
+        return (AntiSymmetricTensor(f"{tn.gs_density}{order}", (u,), (l,), 1)
+                * AntiSymmetricTensor(tn.operator, (u,), (l,), 1))
+
+    MENU.update({
+        "p0_2_exp": lambda: (Expr(density_expr(2), real=True)
+                             .expand_intermediates().sympy, ""),
+        "p0_2_vv_exp": lambda: (Expr(density_expr(2, "ab"), real=True)
+                                .expand_intermediates().sympy, ""),
+        "p0_3_ov_exp": lambda: (Expr(density_expr(3, "ia"), real=True)
+                                .expand_intermediates().sympy, ""),
+    })
     out = []
     for rq in reqs:
         rec = {"req": rq}
